@@ -6,7 +6,9 @@ import (
 	"go/token"
 	"go/types"
 	"strings"
+	"verifsa/internal/load"
 	"verifsa/internal/paths"
+	"verifsa/internal/prover"
 
 	"golang.org/x/tools/go/ssa"
 
@@ -446,6 +448,221 @@ func shapeRules(c *core.Ctx) {
 			ok = false
 		}
 		c.Decide(ok, rule, key, pos, detail, name+" does not read exactly n octets into a fresh buffer"+map[bool]string{true: " and cut the value at the first 0x00 (idx >= 0)", false: " without trimming"}[name == "ReadCStringN"])
+	}
+
+	// --- the same three readers, all paths (must-pass-through form of the rules above): a path that returns without
+	// having read and without recording an error is allowed only where n <= 0 is established; a path that read and
+	// recorded no error has passed `err == nil` and `r == n` and returns exactly the buffer / string(buffer) /
+	// string(buffer[:firstZero]) - no further trimming or transformation.
+	for _, name := range []string{"ReadCStringN", "ReadCStringNWithoutTrim", "ReadNBytes"} {
+		fn, pos := get("Reader", name)
+		key := "packet.Reader." + name + "#paths"
+		if fn == nil || len(fn.Params) != 2 {
+			continue
+		}
+		n := fn.Params[1]
+		inline := func(call *ssa.Call, callee *ssa.Function) bool {
+			return callee.Pkg == fn.Pkg && callee.Signature.Recv() != nil && len(callee.Blocks) > 0 && callee.Name() == "short"
+		}
+		ps, err := paths.Enumerate(fn, paths.Config{Inline: inline, MaxDepth: 1})
+		if err != nil {
+			c.Unknown(rule, key, pos, "path enumeration failed: "+err.Error())
+			continue
+		}
+		pv := prover.New(fn)
+		var problems []string
+		for _, p := range ps {
+			if p.Aborted != "" {
+				problems = append(problems, "path not analysable: "+p.Aborted)
+				continue
+			}
+			entered, stored := false, false
+			var read *ssa.Call
+			errNil, cntOK := false, false
+			first := true
+			var lastBlock *ssa.BasicBlock
+			for _, e := range p.Events {
+				if e.Instr != nil && e.Depth == 0 {
+					lastBlock = e.Instr.Block()
+				}
+				switch e.Kind {
+				case paths.EvBranch:
+					if subj, neq, ok := nilTest(e.Cond); ok {
+						if u, isU := subj.(*ssa.UnOp); isU && first {
+							if _, f, isF := fieldOfAddr(u.X); isF && f.Name() == "opError" && neq == e.Taken {
+								entered = true
+							}
+						}
+						if read != nil {
+							if ex, isE := e.Resolve(subj).(*ssa.Extract); isE && ex.Tuple == ssa.Value(read) && ex.Index == 1 && neq != e.Taken {
+								errNil = true
+							}
+						}
+					}
+					first = false
+					if bo, ok := e.Cond.(*ssa.BinOp); ok && read != nil && (bo.Op == token.NEQ || bo.Op == token.EQL) {
+						for _, pair := range [][2]ssa.Value{{bo.X, bo.Y}, {bo.Y, bo.X}} {
+							if ex, isE := pair[0].(*ssa.Extract); isE && ex.Tuple == ssa.Value(read) && ex.Index == 0 && pair[1] == ssa.Value(n) {
+								if (bo.Op == token.NEQ) != e.Taken {
+									cntOK = true
+								}
+							}
+						}
+					}
+				case paths.EvInstr:
+					if st, ok := e.Instr.(*ssa.Store); ok {
+						if _, f, ok := fieldOfAddr(st.Addr); ok && f.Name() == "opError" {
+							stored = true
+						}
+					}
+					if call, ok := e.Instr.(*ssa.Call); ok && strings.HasSuffix(calleeName(call), "bytes.(Buffer).Read") {
+						read = call
+					}
+				}
+			}
+			if entered || stored || len(p.Results) != 1 {
+				continue
+			}
+			r := p.Results[0]
+			if read == nil {
+				// no-op return: n <= 0 must be established here
+				if lastBlock == nil {
+					lastBlock = fn.Blocks[0]
+				}
+				if ok, _ := pv.Prove(lastBlock, pv.LinOf(n).Scale(-1), nil); !ok {
+					problems = append(problems, "a path returns without reading and without an error although n <= 0 is not established: a positive-width field is skipped and every later field is read from the wrong offset")
+				}
+				continue
+			}
+			if !errNil {
+				problems = append(problems, "a path that read from the buffer reaches the result without `err == nil` having been established (an end-of-input error is tolerated)")
+			}
+			if !cntOK {
+				problems = append(problems, "a path that read from the buffer reaches the result without `read count == n` having been established")
+			}
+			temp := read.Call.Args[1]
+			v := r
+			if cv, ok := v.(*ssa.Convert); ok {
+				v = cv.X
+			}
+			if len(p.Events) > 0 {
+				v = p.Events[len(p.Events)-1].Resolve(v)
+			}
+			okRes := v == temp
+			if sl, ok := v.(*ssa.Slice); ok && name == "ReadCStringN" && sl.X == temp && sl.Low == nil {
+				if call, ok := sl.High.(*ssa.Call); ok && calleeName(call) == "bytes.IndexByte" {
+					okRes = true
+				}
+			}
+			if !okRes {
+				problems = append(problems, "the value returned is "+role(plain, r)+", not the octets read (cut at the first 0x00 for ReadCStringN only): the field value is transformed on its way in")
+			}
+		}
+		c.Decide(len(problems) == 0, rule, key, pos, fmt.Sprintf("%d paths: early exit only for n <= 0; success implies err == nil and count == n; result is the octets read", len(ps)), strings.Join(dedup(problems), "; "))
+	}
+
+	// --- every buffer operation that can fail, in every Reader/Writer method, all paths: a path on which the operation
+	// ran and no sticky error was recorded afterwards has established `err == nil` for it (a test that lets some errors
+	// through - e.g. `err != nil && err != io.EOF` - leaves a path without that fact)
+	for _, typ := range []string{"Reader", "Writer"} {
+		tn, _ := c.Prog.Pkg("packet").Types.Scope().Lookup(typ).(*types.TypeName)
+		if tn == nil {
+			continue
+		}
+		ms := types.NewMethodSet(types.NewPointer(tn.Type()))
+		for i := 0; i < ms.Len(); i++ {
+			mf, _ := ms.At(i).Obj().(*types.Func)
+			if mf == nil || !mf.Exported() {
+				continue
+			}
+			fn := c.Prog.SSAFunc(mf)
+			if fn == nil || len(fn.Blocks) == 0 {
+				continue
+			}
+			inline := func(call *ssa.Call, callee *ssa.Function) bool {
+				return callee.Pkg == fn.Pkg && callee.Signature.Recv() != nil && len(callee.Blocks) > 0 && !callee.Object().Exported()
+			}
+			ps, err := paths.Enumerate(fn, paths.Config{Inline: inline, MaxDepth: 2})
+			if err != nil {
+				continue // loops etc.: covered by the per-primitive rules
+			}
+			var problems []string
+			nCalls := 0
+			for _, p := range ps {
+				if p.Aborted != "" {
+					continue
+				}
+				type pending struct {
+					call *ssa.Call
+					ok   bool
+				}
+				var pend []*pending
+				stored := false
+				for _, e := range p.Events {
+					switch e.Kind {
+					case paths.EvInstr:
+						if call, ok := e.Instr.(*ssa.Call); ok {
+							cal := call.Call.StaticCallee()
+							if cal == nil || cal.Pkg == nil || load.InModule(cal.Pkg.Pkg) {
+								continue
+							}
+							res := cal.Signature.Results()
+							if res.Len() == 0 || !isErrorType(res.At(res.Len()-1).Type()) {
+								continue
+							}
+							pp := cal.Pkg.Pkg.Path()
+							if pp != "bytes" && pp != "encoding/binary" && !strings.Contains(pp, "bytebufferpool") && pp != "io" {
+								continue
+							}
+							pend = append(pend, &pending{call: call})
+							nCalls++
+						}
+						if st, ok := e.Instr.(*ssa.Store); ok {
+							if _, f, ok := fieldOfAddr(st.Addr); ok && f.Name() == "opError" {
+								stored = true
+							}
+						}
+					case paths.EvBranch:
+						subj, neq, ok := nilTest(e.Cond)
+						if !ok || neq == e.Taken {
+							continue
+						}
+						v := e.Resolve(subj)
+						for _, pd := range pend {
+							n := pd.call.Call.Signature().Results().Len()
+							if n == 1 && v == ssa.Value(pd.call) {
+								pd.ok = true
+							}
+							if ex, isE := v.(*ssa.Extract); isE && ex.Tuple == ssa.Value(pd.call) && ex.Index == n-1 {
+								pd.ok = true
+							}
+						}
+					}
+				}
+				if stored {
+					continue
+				}
+				for _, pd := range pend {
+					if !pd.ok {
+						// discarded on purpose (`_ = w.WriteByte(..)`) is judged by ERRCHK; here: tested but not on this path
+						hasTest := false
+						if pd.call.Referrers() != nil {
+							for _, r := range *pd.call.Referrers() {
+								if ex, isE := r.(*ssa.Extract); isE && ex.Referrers() != nil && len(*ex.Referrers()) > 0 && isErrorType(ex.Type()) {
+									hasTest = true
+								}
+							}
+						}
+						if hasTest {
+							problems = append(problems, "a path continues after "+calleeName(pd.call)+" without `err == nil` established and without recording an error (some errors are let through)")
+						}
+					}
+				}
+			}
+			if nCalls > 0 {
+				c.Decide(len(problems) == 0, rule, "packet."+typ+"."+mf.Name()+"#err-all-paths", c.Prog.Pos(fn.Pos()), fmt.Sprintf("%d paths: every failing-capable buffer operation is followed by err == nil or a recorded error", len(ps)), strings.Join(dedup(problems), "; "))
+			}
+		}
 	}
 
 	// --- integer pairs: same width and same order object on both sides
